@@ -749,6 +749,7 @@ type Channel struct {
 	sendQueueSize int32 // atomic.
 	recving       []byte
 	sending       []byte
+	sendingSet    bool  // a message (possibly empty) was taken off sendQueue and is not finished yet
 	recentlySent  int64 // exponential moving average
 
 	maxPacketMsgPayloadSize int
@@ -815,11 +816,12 @@ func (ch *Channel) canSend() bool {
 // Call before calling nextPacketMsg()
 // Goroutine-safe
 func (ch *Channel) isSendPending() bool {
-	if len(ch.sending) == 0 {
+	if len(ch.sending) == 0 && !ch.sendingSet {
 		if len(ch.sendQueue) == 0 {
 			return false
 		}
 		ch.sending = <-ch.sendQueue
+		ch.sendingSet = true
 	}
 	return true
 }
@@ -833,6 +835,7 @@ func (ch *Channel) nextPacketMsg() kp2p.PacketMsg {
 	if len(ch.sending) <= maxSize {
 		packet.EOF = true
 		ch.sending = nil
+		ch.sendingSet = false
 		atomic.AddInt32(&ch.sendQueueSize, -1) // decrement sendQueueSize
 	} else {
 		packet.EOF = false
